@@ -231,7 +231,7 @@ def check_uci(pid, tier, seed):
     cli = build_cli()
     quick = tier == "quick"
     rnd = random.Random(seed * 53 + 1)
-    model_check(chk, "Uci", cfg="Uci", workers=4)
+    model_check(chk, "Uci", cfg="Uci" if quick else "UciBig", workers=4)
     model_check(chk, "Uci", cfg="UciPinned", workers=2, expect_violation=True)
     pool = Pool(wvbin, wd, seed)
     gens = gen_sequences(chk, wd, seed, 90 if quick else 2500)
